@@ -244,6 +244,8 @@ package memefish
 // @   ensures result1 == nil && base == 16 && len(s) == 2 ==> isHexDigit(s[0]) && isHexDigit(s[1]) && result0 == 16 * hexVal(s[0]) + hexVal(s[1])
 // @   ensures result1 == nil && base == 8 && len(s) == 3 ==> isOctalDigit(s[0]) && isOctalDigit(s[1]) && isOctalDigit(s[2]) && result0 == 64 * (s[0] - '0') + 8 * (s[1] - '0') + (s[2] - '0')
 // @   ensures base == 16 && len(s) == 2 && isHexDigit(s[0]) && isHexDigit(s[1]) ==> result1 == nil
+// @   ensures[C14] hex4: result1 == nil && base == 16 && len(s) == 4 ==> result0 == hexVal4(s, 0)
+// @   ensures[C14] hex8: result1 == nil && base == 16 && len(s) == 8 ==> result0 == hexVal8(s, 0)
 // @   ensures base == 8 && bitSize == 8 && len(s) == 3 && '0' <= s[0] && s[0] <= '3' && isOctalDigit(s[1]) && isOctalDigit(s[2]) ==> result1 == nil
 
 // @ func unicode/utf8.EncodeRune
@@ -285,6 +287,8 @@ package memefish
 // @   loop 0 step[C14,C12] octal: !hasError && l.Buffer[l.pos + prev(i)] == 92 && !raw && '0' <= l.Buffer[l.pos + prev(i) + 1] && l.Buffer[l.pos + prev(i) + 1] <= '3' ==> i == prev(i) + 4 && isOctalDigit(l.Buffer[l.pos + prev(i) + 2]) && isOctalDigit(l.Buffer[l.pos + prev(i) + 3]) && len(content) == len(prev(content)) + 1 && content[len(prev(content))] == 64 * (l.Buffer[l.pos + prev(i) + 1] - '0') + 8 * (l.Buffer[l.pos + prev(i) + 2] - '0') + (l.Buffer[l.pos + prev(i) + 3] - '0')
 // @   loop 0 step[C14,C12] uni4: !hasError && l.Buffer[l.pos + prev(i)] == 92 && !raw && l.Buffer[l.pos + prev(i) + 1] == 'u' ==> unicode && i == prev(i) + 6 && hexRun(l.Buffer, l.pos + prev(i) + 2, 4) && len(content) >= len(prev(content)) + 1 && len(content) <= len(prev(content)) + 4
 // @   loop 0 step[C14,C12] uni8: !hasError && l.Buffer[l.pos + prev(i)] == 92 && !raw && l.Buffer[l.pos + prev(i) + 1] == 'U' ==> unicode && i == prev(i) + 10 && hexRun(l.Buffer, l.pos + prev(i) + 2, 8) && len(content) >= len(prev(content)) + 1 && len(content) <= len(prev(content)) + 4
+// @   loop 0 step[C14] scalar4: !hasError && l.Buffer[l.pos + prev(i)] == 92 && !raw && l.Buffer[l.pos + prev(i) + 1] == 'u' ==> !(55296 <= hexVal4(l.Buffer, l.pos + prev(i) + 2) && hexVal4(l.Buffer, l.pos + prev(i) + 2) <= 57343)
+// @   loop 0 step[C14] scalar8: !hasError && l.Buffer[l.pos + prev(i)] == 92 && !raw && l.Buffer[l.pos + prev(i) + 1] == 'U' ==> !(55296 <= hexVal8(l.Buffer, l.pos + prev(i) + 2) && hexVal8(l.Buffer, l.pos + prev(i) + 2) <= 57343) && hexVal8(l.Buffer, l.pos + prev(i) + 2) <= 1114111
 // @   loop 0 step[C14] other: !hasError && l.Buffer[l.pos + prev(i)] == 92 && !raw ==> simpleEsc(l.Buffer[l.pos + prev(i) + 1]) || l.Buffer[l.pos + prev(i) + 1] == 'x' || l.Buffer[l.pos + prev(i) + 1] == 'X' || l.Buffer[l.pos + prev(i) + 1] == 'u' || l.Buffer[l.pos + prev(i) + 1] == 'U' || ('0' <= l.Buffer[l.pos + prev(i) + 1] && l.Buffer[l.pos + prev(i) + 1] <= '3')
 // @   loop 0 step[C14] newline: !hasError && l.Buffer[l.pos + prev(i)] == 10 ==> len(q) == 3
 // @   loop 0 step[C14] keep: forall k: 0 <= k && k < len(prev(content)) ==> content[k] == prev(content)[k]
